@@ -10,6 +10,7 @@ import (
 	"go/token"
 	"os"
 	"path/filepath"
+	"regexp"
 	"sort"
 	"strconv"
 	"strings"
@@ -79,6 +80,9 @@ func redirectImports(file string) {
 	changed := false
 	for _, imp := range f.Imports {
 		p, _ := strconv.Unquote(imp.Path.Value)
+		if p == "syscall" && syscallConstantsOnly(f, imp) {
+			continue // error numbers only (errors.Is(err, syscall.EINTR)): nothing reaches the kernel
+		}
 		for _, d := range denied {
 			if p == d {
 				drv.Broken("%s imports %q: the simulated disk cannot intercept it (construct not understood, see DESIGN 2.2)", file, p)
@@ -426,4 +430,27 @@ func SelfTest(seeds int) (int, map[string]any) {
 		}
 	}
 	return execs, map[string]any{"engine_C_executions_compared": execs}
+}
+
+var reErrnoName = regexp.MustCompile(`^(E[A-Z0-9]+|Errno)$`)
+
+// syscallConstantsOnly reports whether the file uses package syscall for error numbers only.
+func syscallConstantsOnly(f *ast.File, imp *ast.ImportSpec) bool {
+	name := "syscall"
+	if imp.Name != nil {
+		name = imp.Name.Name
+	}
+	if name == "." || name == "_" {
+		return false
+	}
+	ok := true
+	ast.Inspect(f, func(n ast.Node) bool {
+		if sel, is := n.(*ast.SelectorExpr); is {
+			if id, isID := sel.X.(*ast.Ident); isID && id.Name == name && id.Obj == nil && !reErrnoName.MatchString(sel.Sel.Name) {
+				ok = false
+			}
+		}
+		return ok
+	})
+	return ok
 }
